@@ -99,6 +99,7 @@ func lpseqMain(args []string) {
 			recycled += t.recycled.Load()
 		}()
 		fmt.Fprintln(out, strings.Join(res, " "))
+		out.Flush()
 	}
 	fmt.Fprintf(out, "# fresh=%d recycled=%d\n", fresh, recycled)
 }
@@ -108,6 +109,8 @@ func lpseqMain(args []string) {
 // Every public method is then probed on that segment's mutex: Lock/TryLock(key) must write-lock exactly it, RLock/TryRLock(key)
 // read-lock it, Unlock/RUnlock(key) release it; a method that works on another segment is appended as " !<Method>".
 // Consecutive lines with the same size share one instance (every probe leaves it unlocked).
+const abandon = "abandon the instance"
+
 func segkeyIndexMain(args []string) {
 	sc := bufio.NewScanner(os.Stdin)
 	sc.Buffer(make([]byte, 1<<20), 1<<24)
@@ -134,9 +137,7 @@ func segkeyIndexMain(args []string) {
 		func() {
 			defer func() {
 				if r := recover(); r != nil {
-					if strings.Contains(line, "!") {
-						line += " panic"
-					} else {
+					if !strings.Contains(line, "!") { // a "!finding" abandons the instance through panic(abandon)
 						line = "panic"
 					}
 					l = nil
@@ -165,7 +166,7 @@ func segkeyIndexMain(args []string) {
 					m.Unlock()
 				} else {
 					line += " !" + after
-					panic("segment left locked") // the instance is unusable now
+					panic(abandon) // the instance is unusable now
 				}
 			}
 			free("before")
@@ -173,6 +174,7 @@ func segkeyIndexMain(args []string) {
 			if m.TryRLock() {
 				m.RUnlock()
 				line += " !Lock"
+				panic(abandon) // releasing through the public method would hit a mutex that is not locked
 			}
 			l.Unlock(key())
 			free("Unlock")
@@ -180,8 +182,10 @@ func segkeyIndexMain(args []string) {
 			if m.TryLock() {
 				m.Unlock()
 				line += " !RLock"
+				panic(abandon) // releasing through the public method would hit a mutex that is not locked
 			} else if !m.TryRLock() {
 				line += " !RLock-excludes-readers"
+				panic(abandon) // releasing through the public method would hit a mutex that is not locked
 			} else {
 				m.RUnlock()
 			}
@@ -193,6 +197,7 @@ func segkeyIndexMain(args []string) {
 				if m.TryRLock() {
 					m.RUnlock()
 					line += " !TryLock"
+					panic(abandon) // releasing through the public method would hit a mutex that is not locked
 				}
 				l.Unlock(key())
 			}
@@ -203,11 +208,13 @@ func segkeyIndexMain(args []string) {
 				if m.TryLock() {
 					m.Unlock()
 					line += " !TryRLock"
+					panic(abandon) // releasing through the public method would hit a mutex that is not locked
 				}
 				l.RUnlock(key())
 			}
 			free("TryRLock/RUnlock")
 		}()
 		fmt.Fprintln(out, line)
+		out.Flush()
 	}
 }
